@@ -2,4 +2,4 @@ From Coq Require Import Extraction ExtrOcamlBasic ExtrOcamlString.
 From Oras Require Import Base.Prelude Model.Scopes Model.Challenge Model.AuthClient Model.Once Model.CacheSet.
 Extraction Language OCaml.
 Extraction "xc16.ml" clean_scopes clean_scopes_prefix clean_actions get_all_scopes parse_challenge get_param
-  run_model once_accepts set_accepts.
+  run_model unjudged_header once_accepts set_accepts.
